@@ -46,6 +46,15 @@ Progs == {BinProg(q[1], q[2], q[3], q[4], q[5]) :
             q \in {qq \in BinOpsG \X X3 \X Prov \X X3 \X Prov : Pinned(qq[1], qq[2], qq[4])}}
          \cup {NotProg(x, px) : x \in X3, px \in Prov}
 
+\* the same stored value on both sides (x op x): a variable, a table element, a forall iterator
+SameProg(op, x, px) == LET a == Operand(x, px, "A") IN a.pre \o Body(Bin(op, a.e, a.e))
+IterProg(op, x) == << Let("TI", Call("tab", <<I(2), CtorOf(x)>>)), Let("N", I(0)),
+                      Forall("E", V("TI"), "auto", <<Let("R", Bin(op, V("E"), V("E"))), PutS(<<V("R"), Str(" ")>>),
+                                                     If(Bin(op, V("E"), V("E")), <<Let("N", Bin("+", V("N"), I(1)))>>, <<>>)>>),
+                      PrintS(<<V("N")>>) >>
+SameProgs == {SameProg(q[1], q[2], px) : q \in {qq \in BinOpsG \X X3 : Pinned(qq[1], qq[2], qq[2])}, px \in {"var", "uvar", "elem", "const", "func"}}
+             \cup {IterProg(q[1], q[2]) : q \in {qq \in BinOpsG \X X3 : Pinned(qq[1], qq[2], qq[2])}}
+
 \* thorough tier: three operands, both groupings, all truth values, the logical operators, four provenances each
 LOps3 == {"and", "or", "xor"}
 Prov3 == {"const", "var", "func", "elem"}
@@ -56,7 +65,7 @@ Progs3 == IF Thorough
           THEN {TriProg(o1, o2, x, px, y, py, z, pz, l) : o1 \in LOps3, o2 \in LOps3, x \in X3, y \in X3, z \in X3, px \in Prov3, py \in Prov3, pz \in Prov3, l \in BOOLEAN}
           ELSE {}
 VARIABLE p
-Init == p \in Progs \cup Progs3
+Init == p \in Progs \cup SameProgs \cup Progs3
 Next == UNCHANGED p
 Emit == PrintT("@@S " \o ToJson([prop |-> "C04",
           steps |-> << [op |-> "exec", ctx |-> 0, ast |-> p, text |-> Render(p)],
